@@ -105,6 +105,45 @@ async def loop_step_case(context):
     return None
 
 
+async def loop_output_run_case(context):
+    """a real CWLLoopOutputAllStep / CWLLoopOutputLastStep run by the executor for 1..3 loop instances; the iteration values AND the
+    iteration-termination token of every instance arrive in a random order (the termination may overtake values).  Exactly one
+    output per instance: all the values in iteration order, or the last one."""
+    from streamflow.core.workflow import Workflow
+    from streamflow.workflow.executor import StreamFlowExecutor
+    from streamflow.workflow.token import IterationTerminationToken, TerminationToken
+
+    cls = rng.choice([CWLLoopOutputAllStep, CWLLoopOutputLastStep])
+    wf = Workflow(context=context, name=f"c06-lo-{rng.random()}", config={})
+    in_port, out_port = wf.create_port(), wf.create_port()
+    step = wf.create_step(cls=cls, name=f"/loop{int(rng.random() * 10 ** 9)}/out-loop-output")
+    step.add_input_port("out", in_port)
+    step.add_output_port("out", out_port)
+    await wf.save(context.database)
+    inst = {f"0.{k}": rng.choice([1, 2, 3, 5, 11]) for k in range(rng.randint(1, 3))}
+    events = []
+    for prefix, n in inst.items():
+        events += [Token(f"{prefix}#{i}", tag=f"{prefix}.{i}") for i in range(n)]
+        events.append(IterationTerminationToken(tag=f"{prefix}.{n}"))
+    rng.shuffle(events)
+    for t in events:
+        if not isinstance(t, IterationTerminationToken):
+            await t.save(context.database, in_port.persistent_id)
+        in_port.put(t)
+    in_port.put(TerminationToken())
+    await asyncio.wait_for(StreamFlowExecutor(wf).run(), 60)
+    outs = {o.tag: o for o in out_port.token_list if not isinstance(o, TerminationToken)}
+    for prefix, n in inst.items():
+        o = outs.get(prefix)
+        want = [f"{prefix}#{i}" for i in range(n)]
+        got = None if o is None else ([t.value for t in o.value] if isinstance(o, ListToken) else o.value)
+        ok = got == (want if cls is CWLLoopOutputAllStep else want[-1])
+        if not ok or len(outs) != len(inst):
+            return {"failure": "the loop output step did not emit exactly the output of every loop instance", "policy": cls.__name__, "instance": prefix, "iterations": n,
+                    "arrival": [("END " if isinstance(t, IterationTerminationToken) else "") + t.tag for t in events], "got": got, "outputs": sorted(outs)}
+    return None
+
+
 async def loop_step_search(n):
     import tempfile
 
@@ -114,7 +153,7 @@ async def loop_step_search(n):
     context = build_context({"database": {"type": "default", "config": {"connection": ":memory:"}}, "path": workdir})
     try:
         for _ in range(n):
-            bad = await loop_step_case(context)
+            bad = await loop_step_case(context) or await loop_output_run_case(context) or await loop_output_run_case(context)
             if bad:
                 return bad
     finally:
